@@ -15,6 +15,174 @@ use write_fonts::{dump_table, error::Error, verif_graph_hooks as hooks};
 
 const KINDS: [&str; 5] = ["pairpos1", "pairpos2", "markbase", "mixed", "gsub-single"];
 
+// ---------------------------------------------------------------- glyph-set shapes
+//
+// Coverage tables are where the splitting code re-slices its input, and the
+// range format (format 2) has its own slicing arithmetic. Every covered glyph
+// set of the GPOS workload is therefore drawn from a family of RUN SHAPES
+// (singletons, runs of 2..n, alternating, long runs with stray singletons, a
+// single-glyph first range, ...), and the coverage table is either left to
+// the builder (which picks the smaller format) or forced to format 1 / format
+// 2 / format 2 with runs cut into several adjacent range records, so that
+// range boundaries fall at every position relative to the split points.
+
+pub const SHAPES: [&str; 8] = ["one-run", "singletons", "runs-of-L", "random-runs", "alternating", "singleton-then-long", "long+stray-singletons", "random-gaps"];
+pub const COV_MODES: [&str; 4] = ["builder", "force-format1", "force-format2", "force-format2-cut-runs"];
+
+/// `n` strictly increasing glyph ids starting at `first` in run shape `shape`.
+fn glyph_shape(r: &mut Rng, shape: usize, n: usize, first: u16) -> Vec<u16> {
+    let mut g: Vec<u16> = Vec::with_capacity(n);
+    let mut cur = first as u32;
+    let mut push_run = |g: &mut Vec<u16>, len: usize, gap: u32| {
+        for _ in 0..len {
+            if g.len() < n {
+                g.push(cur as u16);
+                cur += 1;
+            }
+        }
+        cur += gap; // gap >= 1 separates this run from the next
+    };
+    let l_fixed = r.range(2, 9) as usize;
+    let m = *r.pick(&[2usize, 3, 5, 10, 50, 400]);
+    let k_alt = r.range(2, 12) as usize;
+    let mut i = 0usize;
+    while g.len() < n {
+        let gap = 1 + r.below(2) as u32;
+        match shape {
+            0 => push_run(&mut g, n, gap),
+            1 => push_run(&mut g, 1, gap),
+            2 => push_run(&mut g, l_fixed, gap),
+            3 => {
+                let l = r.range(1, m as i64) as usize;
+                push_run(&mut g, l, gap)
+            }
+            4 => push_run(&mut g, if i % 2 == 0 { 1 } else { k_alt }, gap),
+            5 => push_run(&mut g, if i == 0 { 1 } else { (n / 3).max(2) + r.usize(7) }, gap),
+            6 => {
+                if r.chance(1, 3) {
+                    push_run(&mut g, 1, gap)
+                } else {
+                    let l = r.range(20, 300) as usize;
+                    push_run(&mut g, l, gap)
+                }
+            }
+            _ => push_run(&mut g, 1, r.below(2) as u32), // gap 0 or 1: the legacy generator
+        }
+        i += 1;
+    }
+    g
+}
+
+/// maximal runs of consecutive glyph ids as (first index, last index)
+fn maximal_runs(g: &[u16]) -> Vec<(usize, usize)> {
+    let mut v = vec![];
+    let mut s = 0usize;
+    for i in 1..=g.len() {
+        if i == g.len() || g[i] != g[i - 1] + 1 {
+            v.push((s, i - 1));
+            s = i;
+        }
+    }
+    v
+}
+
+/// Build the coverage table for sorted glyphs `g`. Returns the table and the
+/// range records it has as INDEX intervals (empty for format 1).
+/// `cuts`: extra range boundaries (a new record starts at these indices), used by the adaptive variant.
+fn make_coverage(r: &mut Rng, g: &[u16], mode: usize, cuts: &[usize]) -> (layout::CoverageTable, Vec<(usize, usize)>) {
+    let runs = maximal_runs(g);
+    let explicit = |ranges: &[(usize, usize)]| {
+        layout::CoverageTable::format_2(
+            ranges
+                .iter()
+                .map(|(a, b)| layout::RangeRecord::new(GlyphId16::new(g[*a]), GlyphId16::new(g[*b]), *a as u16))
+                .collect(),
+        )
+    };
+    match mode {
+        0 => {
+            let t: layout::CoverageTable = g.iter().map(|x| GlyphId16::new(*x)).collect();
+            let is2 = matches!(t, layout::CoverageTable::Format2(_));
+            (t, if is2 { runs } else { vec![] })
+        }
+        1 => (layout::CoverageTable::format_1(g.iter().map(|x| GlyphId16::new(*x)).collect()), vec![]),
+        2 if cuts.is_empty() => (explicit(&runs), runs),
+        _ => {
+            // cut runs into adjacent records
+            let mut ranges = vec![];
+            let p = *r.pick(&[2u64, 5, 20, 100]);
+            for (a, b) in runs {
+                let mut s = a;
+                for i in a..=b {
+                    let cut_here = i < b && (cuts.contains(&(i + 1)) || (cuts.is_empty() && r.chance(1, p)));
+                    if i == b || cut_here {
+                        ranges.push((s, i));
+                        s = i + 1;
+                    }
+                }
+            }
+            (explicit(&ranges), ranges)
+        }
+    }
+}
+
+/// shape parameters of one covered glyph set, drawn from their own stream so
+/// that the rest of the recipe does not depend on them
+#[derive(Clone, Debug, Default)]
+pub struct CovPlan {
+    pub shape: usize,
+    pub mode: usize,
+    /// adaptive variant: place range boundaries around these indices
+    pub around: Vec<usize>,
+}
+
+fn draw_plan(r: &mut Rng) -> CovPlan {
+    CovPlan { shape: r.usize(SHAPES.len()), mode: *r.pick(&[0usize, 0, 1, 2, 2, 3, 3]), around: vec![] }
+}
+
+/// glyph ids + coverage for `n` glyphs according to `plan`
+fn planned_coverage(r: &mut Rng, plan: &CovPlan, n: usize, first: u16) -> (Vec<u16>, layout::CoverageTable, Vec<(usize, usize)>) {
+    if plan.around.is_empty() {
+        let g = glyph_shape(r, plan.shape, n, first);
+        let (t, ranges) = make_coverage(r, &g, plan.mode, &[]);
+        return (g, t, ranges);
+    }
+    // adaptive: consecutive glyph ids except for a few gaps; explicit format 2 whose records end at s-1, s, s+1
+    // or isolate s as a single-glyph record, for every observed split start s
+    let mut cuts: Vec<usize> = vec![];
+    let mut gaps: Vec<usize> = vec![];
+    for s in &plan.around {
+        let s = *s;
+        match r.below(5) {
+            0 => cuts.push(s),            // a record ends at s-1, the next starts at s
+            1 => cuts.push(s + 1),        // a record ends exactly at s
+            2 => cuts.push(s + 2),        // a record ends at s+1
+            3 => {
+                cuts.push(s);
+                cuts.push(s + 1); // single-glyph record at s
+            }
+            _ => {
+                gaps.push(s + 1); // a real gap in the glyph ids after s: the maximal run ends at s
+            }
+        }
+    }
+    let mut g = Vec::with_capacity(n);
+    let mut cur = first as u32;
+    for i in 0..n {
+        if gaps.contains(&i) {
+            cur += 1 + r.below(3) as u32;
+        }
+        g.push(cur as u16);
+        cur += 1;
+    }
+    cuts.retain(|c| *c > 0 && *c < n);
+    if cuts.is_empty() {
+        cuts.push(n / 2 + 1);
+    }
+    let (t, ranges) = make_coverage(r, &g, 3, &cuts);
+    (g, t, ranges)
+}
+
 fn h16(a: u64, b: u64, c: u64) -> i16 {
     let x = fnv64(&[a.to_le_bytes(), b.to_le_bytes(), c.to_le_bytes()].concat());
     // keep away from 0 so that value formats stay stable
@@ -23,54 +191,111 @@ fn h16(a: u64, b: u64, c: u64) -> i16 {
 
 // ---------------------------------------------------------------- expected models
 
+/// one input PairPos format 1 subtable
+struct Pp1Sub {
+    glyphs: Vec<u16>,
+    /// range records of the input coverage as index intervals (empty: format 1)
+    ranges: Vec<(usize, usize)>,
+    /// per first glyph: key of its pair set's values
+    vkeys: Vec<u64>,
+    /// records per pair set
+    k: usize,
+    plan: CovPlan,
+}
+
+impl Pp1Sub {
+    fn g2(&self, q: usize, j: usize) -> u16 {
+        1 + (self.vkeys[q] as u16 % 7) + j as u16 * 2
+    }
+}
+
+struct Pp2 {
+    li: usize,
+    /// (first glyph, class1)
+    g1s: Vec<(u16, u16)>,
+    g2s: Vec<(u16, u16)>,
+    n2: u16,
+    seed: u64,
+}
+
+struct Mb {
+    li: usize,
+    /// (gid, class, x, y)
+    marks: Vec<(u16, u16, i16, i16)>,
+    /// (gid, per class anchor)
+    bases: Vec<(u16, Vec<Option<(i16, i16)>>)>,
+}
+
 #[derive(Default)]
 struct Expect {
-    /// (lookup, g1, g2) -> x_advance of record 1
-    pairs: HashMap<(usize, u16, u16), i16>,
-    /// class-based: per lookup (first glyphs -> class1), (second glyphs -> class2), n2, seed
-    pp2: Vec<(usize, Vec<(u16, u16)>, Vec<(u16, u16)>, u16, u64)>,
-    /// per lookup: marks (gid, class, x, y), bases (gid, per class Option<(x,y)>)
-    mb: Vec<(usize, Vec<(u16, u16, i16, i16)>, Vec<(u16, Vec<Option<(i16, i16)>>)>)>,
+    pp1: Vec<(usize, Vec<Pp1Sub>)>,
+    pp2: Vec<Pp2>,
+    mb: Vec<Mb>,
     /// gsub single: (lookup, glyph) -> substitute
     subst: HashMap<(usize, u16), u16>,
     n_input_subtables: usize,
+    /// (shape, coverage mode, format-2?) of every shaped coverage, for evidence
+    coverages: Vec<(usize, usize, bool, usize)>,
 }
 
-fn big_pair_pos1(r: &mut Rng, li: usize, target: usize, ex: &mut Expect) -> gpos::PositionLookup {
+struct Gen<'a> {
+    seed: u64,
+    k: u64,
+    slot: u64,
+    /// adaptive variant: (lookup, input subtable) -> observed split starts
+    adapt: &'a HashMap<(usize, usize), Vec<usize>>,
+}
+
+impl Gen<'_> {
+    fn shape_rng(&mut self) -> Rng {
+        self.slot += 1;
+        Rng::derive(self.seed, "c05-gpos-shape", self.k * 64 + self.slot)
+    }
+}
+
+fn pp1_adv(li: usize, vkey: u64, j: usize) -> i16 {
+    h16(li as u64, vkey, j as u64)
+}
+
+fn big_pair_pos1(r: &mut Rng, gen: &mut Gen, li: usize, target: usize, ex: &mut Expect) -> gpos::PositionLookup {
     let n_sub = if r.chance(1, 4) { 2 } else { 1 };
     let mut subs = vec![];
+    let mut model = vec![];
     let mut next_g1 = 1 + r.below(50) as u16;
-    for _ in 0..n_sub {
+    for si in 0..n_sub {
         let k = r.range(20, 300) as usize;
         let share = r.chance(1, 3);
         let n_first = ((target / n_sub) / (k * 4 + 8)).max(1).min(3000);
-        let mut cov = vec![];
+        let mut sr = gen.shape_rng();
+        let mut plan = draw_plan(&mut sr);
+        if let Some(a) = gen.adapt.get(&(li, si)) {
+            plan.around = a.clone();
+        }
+        let (glyphs, cov, ranges) = planned_coverage(&mut sr, &plan, n_first, next_g1);
+        ex.coverages.push((plan.shape, if plan.around.is_empty() { plan.mode } else { 3 }, !ranges.is_empty(), ranges.len()));
+        let mut sub = Pp1Sub { glyphs, ranges, vkeys: vec![], k, plan };
         let mut sets = vec![];
         for q in 0..n_first {
-            let g1 = next_g1;
-            next_g1 += 1 + r.below(2) as u16;
-            cov.push(GlyphId16::new(g1));
             // shared pair sets: every 4th set repeats the values of an earlier one
             let vkey = if share && q % 4 == 3 { (q - 3) as u64 } else { q as u64 };
-            let g2_first = 1 + (vkey as u16 % 7);
+            sub.vkeys.push(vkey);
             let recs = (0..k)
                 .map(|j| {
-                    let g2 = g2_first + j as u16 * 2;
-                    let adv = h16(li as u64, vkey, j as u64);
-                    ex.pairs.insert((li, g1, g2), adv);
                     gpos::PairValueRecord::new(
-                        GlyphId16::new(g2),
-                        gpos::ValueRecord::new().with_x_advance(adv),
+                        GlyphId16::new(sub.g2(q, j)),
+                        gpos::ValueRecord::new().with_x_advance(pp1_adv(li, vkey, j)),
                         gpos::ValueRecord::default(),
                     )
                 })
                 .collect();
             sets.push(gpos::PairSet::new(recs));
         }
-        next_g1 += 10;
-        subs.push(gpos::PairPos::format_1(cov.into_iter().collect(), sets));
+        next_g1 = sub.glyphs.last().copied().unwrap_or(next_g1) + 10;
+        subs.push(gpos::PairPos::format_1(cov, sets));
+        model.push(sub);
         ex.n_input_subtables += 1;
     }
+    ex.pp1.push((li, model));
     let mut lk = layout::Lookup::new(layout::LookupFlag::empty(), subs);
     if r.chance(1, 5) {
         lk.mark_filtering_set = Some(7);
@@ -83,22 +308,22 @@ fn pp2_val(seed: u64, c1: u16, c2: u16) -> (i16, i16) {
     (h16(seed, c1 as u64, c2 as u64), h16(seed ^ 0x55, c2 as u64, c1 as u64))
 }
 
-fn big_pair_pos2(r: &mut Rng, li: usize, target: usize, ex: &mut Expect) -> gpos::PositionLookup {
+fn big_pair_pos2(r: &mut Rng, gen: &mut Gen, li: usize, target: usize, ex: &mut Expect) -> gpos::PositionLookup {
     // class1 x class2 records of 4 bytes
     let n2 = r.range(20, 120) as u16;
     let n1 = ((target / 4) / n2 as usize).clamp(2, 1200) as u16;
-    let per_class = r.range(1, 2) as u16;
-    let first1 = 10u16;
-    let mut g1s = vec![];
-    for c in 0..n1 {
-        for q in 0..per_class {
-            g1s.push((first1 + c * per_class + q, c));
-        }
-    }
-    let first2 = 5000u16;
+    let per_class = r.range(1, 3) as u16;
+    let interleave = r.chance(1, 3);
+    let mut sr = gen.shape_rng();
+    let plan = draw_plan(&mut sr);
+    let n = n1 as usize * per_class as usize;
+    let (glyphs, cov, ranges) = planned_coverage(&mut sr, &plan, n, 10 + r.below(20) as u16);
+    ex.coverages.push((plan.shape, plan.mode, !ranges.is_empty(), ranges.len()));
+    // consecutive glyphs share a class, or classes are dealt round-robin (fragmented class ranges)
+    let g1s: Vec<(u16, u16)> = glyphs.iter().enumerate().map(|(i, g)| (*g, if interleave { (i % n1 as usize) as u16 } else { (i / per_class as usize) as u16 })).collect();
+    let first2 = glyphs.last().copied().unwrap_or(10) + 50;
     let g2s: Vec<(u16, u16)> = (0..n2 * 2).map(|i| (first2 + i, i % n2)).collect();
     let seed = r.u64();
-    let cov: layout::CoverageTable = g1s.iter().map(|(g, _)| GlyphId16::new(*g)).collect();
     let cd1: layout::ClassDef = g1s.iter().map(|(g, c)| (GlyphId16::new(*g), *c)).collect();
     let cd2: layout::ClassDef = g2s.iter().map(|(g, c)| (GlyphId16::new(*g), *c)).collect();
     let recs = (0..n1)
@@ -107,38 +332,38 @@ fn big_pair_pos2(r: &mut Rng, li: usize, target: usize, ex: &mut Expect) -> gpos
                 (0..n2)
                     .map(|c2| {
                         let (a, b) = pp2_val(seed, c1, c2);
-                        gpos::Class2Record::new(
-                            gpos::ValueRecord::new().with_x_advance(a),
-                            gpos::ValueRecord::new().with_x_advance(b),
-                        )
+                        gpos::Class2Record::new(gpos::ValueRecord::new().with_x_advance(a), gpos::ValueRecord::new().with_x_advance(b))
                     })
                     .collect(),
             )
         })
         .collect();
-    ex.pp2.push((li, g1s, g2s, n2, seed));
+    ex.pp2.push(Pp2 { li, g1s, g2s, n2, seed });
     ex.n_input_subtables += 1;
-    gpos::PositionLookup::Pair(layout::Lookup::new(
-        layout::LookupFlag::empty(),
-        vec![gpos::PairPos::format_2(cov, cd1, cd2, recs)],
-    ))
+    gpos::PositionLookup::Pair(layout::Lookup::new(layout::LookupFlag::empty(), vec![gpos::PairPos::format_2(cov, cd1, cd2, recs)]))
 }
 
-fn big_mark_base(r: &mut Rng, li: usize, target: usize, ex: &mut Expect) -> gpos::PositionLookup {
+fn big_mark_base(r: &mut Rng, gen: &mut Gen, li: usize, target: usize, ex: &mut Expect) -> gpos::PositionLookup {
     let classes = r.range(8, 120) as u16;
     let per_class = r.range(1, 4) as u16;
     // base array: bases x classes x (2 offset + 6 anchor)
-    let n_bases = ((target / 8) / classes as usize).clamp(4, 1500) as u16;
+    let n_bases = ((target / 8) / classes as usize).clamp(4, 1500);
     let null_den = *r.pick(&[0u64, 4, 20]);
-    let first_mark = 3000u16;
-    let first_base = 2u16;
-    let mut marks = vec![];
-    for c in 0..classes {
-        for q in 0..per_class {
-            let gid = first_mark + c * per_class + q;
-            marks.push((gid, c, h16(li as u64, gid as u64, 1), h16(li as u64, gid as u64, 2)));
-        }
-    }
+    let mut sr = gen.shape_rng();
+    let bplan = draw_plan(&mut sr);
+    let (base_glyphs, base_cov, branges) = planned_coverage(&mut sr, &bplan, n_bases, 2 + r.below(9) as u16);
+    ex.coverages.push((bplan.shape, bplan.mode, !branges.is_empty(), branges.len()));
+    let mut sr = gen.shape_rng();
+    let mplan = draw_plan(&mut sr);
+    let n_marks = classes as usize * per_class as usize;
+    let first_mark = base_glyphs.last().copied().unwrap_or(2) + 10;
+    let (mark_glyphs, mark_cov, mranges) = planned_coverage(&mut sr, &mplan, n_marks, first_mark);
+    ex.coverages.push((mplan.shape, mplan.mode, !mranges.is_empty(), mranges.len()));
+    let mut marks: Vec<(u16, u16, i16, i16)> = mark_glyphs
+        .iter()
+        .enumerate()
+        .map(|(i, gid)| (*gid, (i / per_class as usize) as u16, h16(li as u64, *gid as u64, 1), h16(li as u64, *gid as u64, 2)))
+        .collect();
     // coverage order is glyph order; class assignment is interleaved for some tables
     if r.bool() {
         let n = marks.len() as u16;
@@ -155,8 +380,8 @@ fn big_mark_base(r: &mut Rng, li: usize, target: usize, ex: &mut Expect) -> gpos
     }
     let n_classes = marks.iter().map(|m| m.1).max().unwrap_or(0) + 1;
     let mut bases = vec![];
-    for b in 0..n_bases {
-        let gid = first_base + b;
+    for gid in &base_glyphs {
+        let gid = *gid;
         let anchors: Vec<Option<(i16, i16)>> = (0..n_classes)
             .map(|c| {
                 if null_den != 0 && r.chance(1, null_den) {
@@ -168,21 +393,14 @@ fn big_mark_base(r: &mut Rng, li: usize, target: usize, ex: &mut Expect) -> gpos
             .collect();
         bases.push((gid, anchors));
     }
-    let mark_cov: layout::CoverageTable = marks.iter().map(|m| GlyphId16::new(m.0)).collect();
-    let base_cov: layout::CoverageTable = bases.iter().map(|b| GlyphId16::new(b.0)).collect();
-    let mark_array = gpos::MarkArray::new(
-        marks
-            .iter()
-            .map(|m| gpos::MarkRecord::new(m.1, gpos::AnchorTable::format_1(m.2, m.3)))
-            .collect(),
-    );
+    let mark_array = gpos::MarkArray::new(marks.iter().map(|m| gpos::MarkRecord::new(m.1, gpos::AnchorTable::format_1(m.2, m.3))).collect());
     let base_array = gpos::BaseArray::new(
         bases
             .iter()
             .map(|b| gpos::BaseRecord::new(b.1.iter().map(|a| a.map(|(x, y)| gpos::AnchorTable::format_1(x, y))).collect()))
             .collect(),
     );
-    ex.mb.push((li, marks, bases));
+    ex.mb.push(Mb { li, marks, bases });
     ex.n_input_subtables += 1;
     gpos::PositionLookup::MarkToBase(layout::Lookup::new(
         layout::LookupFlag::empty(),
@@ -191,12 +409,22 @@ fn big_mark_base(r: &mut Rng, li: usize, target: usize, ex: &mut Expect) -> gpos
 }
 
 // ---------------------------------------------------------------- read-back
+//
+// Object reachability, stated on the input: EVERY first glyph / mark / base of
+// the input is looked up through the coverage tables of the output (the way a
+// shaper does: `Coverage::get`), must be covered by exactly one of the
+// lookup's subtables and must reach there its own pair set / class record /
+// anchors with every value of the input; no subtable covers a glyph the input
+// did not have; coverage indices are consistent with the arrays they index.
 
 #[derive(Default, Debug)]
 struct Back {
     subtables: usize,
     extension_lookups: usize,
     rules: u64,
+    glyphs_reached: u64,
+    /// (lookup, input subtable) -> start indices of the pieces it was split into (without 0)
+    pp1_splits: Vec<((usize, usize), Vec<usize>)>,
 }
 
 macro_rules! rd {
@@ -208,12 +436,38 @@ macro_rules! rd {
     };
 }
 
+/// every glyph the coverage lists is one of `allowed`, listed once, and `get` agrees with the iteration order
+fn check_coverage_consistent(cov: &read_fonts::tables::layout::CoverageTable, allowed: &HashSet<u16>, w: &str, what: &str) -> Result<usize, String> {
+    let mut n = 0usize;
+    let mut prev: Option<u16> = None;
+    for (idx, g) in cov.iter().enumerate() {
+        let g16 = g.to_u16();
+        if !allowed.contains(&g16) {
+            return Err(format!("{}: {} coverage lists glyph {} which the input did not cover", w, what, g16));
+        }
+        if let Some(p) = prev {
+            if p >= g16 {
+                return Err(format!("{}: {} coverage not strictly increasing at glyph {}", w, what, g16));
+            }
+        }
+        prev = Some(g16);
+        if cov.get(g) != Some(idx as u16) {
+            return Err(format!("{}: {} coverage index of glyph {} is {:?}, but it is entry {} of the coverage", w, what, g16, cov.get(g), idx));
+        }
+        n += 1;
+    }
+    Ok(n)
+}
+
 fn verify_gpos(bytes: &[u8], ex: &Expect) -> Result<Back, String> {
     let mut back = Back::default();
     let table = rd!(rgpos::Gpos::read(bytes.into()), "GPOS header");
     let list = rd!(table.lookup_list(), "lookup list offset");
-    let mut found_pairs: HashMap<(usize, u16, u16), i16> = HashMap::new();
     let lookups = list.lookups();
+    let n_expected = ex.pp1.len() + ex.pp2.len() + ex.mb.len();
+    if list.lookup_count() as usize != n_expected {
+        return Err(format!("lookup count {} differs from input {}", list.lookup_count(), n_expected));
+    }
     for li in 0..list.lookup_count() as usize {
         let lookup = rd!(lookups.get(li), format!("lookup {} offset", li));
         if lookup.lookup_type() == 9 {
@@ -221,87 +475,140 @@ fn verify_gpos(bytes: &[u8], ex: &Expect) -> Result<Back, String> {
         }
         match rd!(lookup.subtables(), format!("lookup {} subtables", li)) {
             rgpos::PositionSubtables::Pair(subs) => {
-                let mut seen_g1: HashSet<u16> = HashSet::new();
-                let pp2 = ex.pp2.iter().find(|x| x.0 == li);
-                let mut g1_ok: HashSet<u16> = HashSet::new();
+                let pp1 = ex.pp1.iter().find(|x| x.0 == li).map(|x| &x.1);
+                let pp2 = ex.pp2.iter().find(|x| x.li == li);
+                // parse every subtable once
+                let mut f1 = vec![];
+                let mut f2 = vec![];
                 for si in 0..subs.len() {
                     back.subtables += 1;
                     let w = format!("lookup {} subtable {}", li, si);
                     match rd!(subs.get(si), format!("{} offset", w)) {
                         rgpos::PairPos::Format1(t) => {
                             let cov = rd!(t.coverage(), format!("{} coverage", w));
-                            let sets = t.pair_sets();
-                            let mut n_cov = 0usize;
-                            for (idx, g1) in cov.iter().enumerate() {
-                                n_cov += 1;
-                                let set = rd!(sets.get(idx), format!("{} pairset {}", w, idx));
-                                if !seen_g1.insert(g1.to_u16()) {
-                                    continue; // an earlier subtable wins
-                                }
-                                for rec in set.pair_value_records().iter() {
-                                    let rec = rd!(rec, format!("{} pair record", w));
-                                    let adv = rec.value_record1.x_advance().unwrap_or(0);
-                                    found_pairs.insert((li, g1.to_u16(), rec.second_glyph.get().to_u16()), adv);
-                                    back.rules += 1;
-                                }
-                            }
-                            if n_cov != t.pair_set_count() as usize {
-                                return Err(format!("{}: coverage has {} glyphs, {} pair sets", w, n_cov, t.pair_set_count()));
-                            }
+                            f1.push((w, t, cov));
                         }
                         rgpos::PairPos::Format2(t) => {
-                            let Some((_, g1s, g2s, n2, seed)) = pp2 else {
-                                return Err(format!("{}: unexpected PairPosFormat2", w));
-                            };
                             let cov = rd!(t.coverage(), format!("{} coverage", w));
-                            let cd1 = rd!(t.class_def1(), format!("{} classdef1", w));
-                            let cd2 = rd!(t.class_def2(), format!("{} classdef2", w));
-                            if t.class2_count() != *n2 {
-                                return Err(format!("{}: class2 count {} != {}", w, t.class2_count(), n2));
-                            }
-                            for (g2, c2) in g2s {
-                                if cd2.get(GlyphId16::new(*g2)) != *c2 {
-                                    return Err(format!("{}: classdef2 of glyph {} changed", w, g2));
-                                }
-                            }
-                            let recs = t.class1_records();
-                            for g1 in cov.iter() {
-                                let g = g1.to_u16();
-                                let Some((_, c1)) = g1s.iter().find(|x| x.0 == g) else {
-                                    return Err(format!("{}: glyph {} was not covered in the input", w, g));
-                                };
-                                if !seen_g1.insert(g) {
-                                    continue;
-                                }
-                                let nc1 = cd1.get(g1);
-                                let rec = rd!(recs.get(nc1 as usize), format!("{} class1 record {}", w, nc1));
-                                let c2recs = rec.class2_records();
-                                for c2 in 0..*n2 {
-                                    let r2 = rd!(c2recs.get(c2 as usize), format!("{} class2 record", w));
-                                    let got = (r2.value_record1.x_advance().unwrap_or(0), r2.value_record2.x_advance().unwrap_or(0));
-                                    if got != pp2_val(*seed, *c1, c2) {
-                                        return Err(format!("{}: value for glyph {} (class {}->{}) x class2 {} is {:?}, expected {:?}", w, g, c1, nc1, c2, got, pp2_val(*seed, *c1, c2)));
-                                    }
-                                    back.rules += 1;
-                                }
-                                g1_ok.insert(g);
-                            }
+                            f2.push((w, t, cov));
                         }
                     }
                 }
-                if let Some((_, g1s, ..)) = pp2 {
-                    if let Some((g, _)) = g1s.iter().find(|x| !g1_ok.contains(&x.0)) {
-                        return Err(format!("lookup {}: first glyph {} lost", li, g));
+                if let Some(model) = pp1 {
+                    if !f2.is_empty() {
+                        return Err(format!("lookup {}: unexpected PairPosFormat2 subtable", li));
                     }
+                    let allowed: HashSet<u16> = model.iter().flat_map(|s| s.glyphs.iter().copied()).collect();
+                    let mut first_glyph_of_piece: Vec<u16> = vec![];
+                    for (w, t, cov) in &f1 {
+                        let n_cov = check_coverage_consistent(cov, &allowed, w, "first-glyph")?;
+                        if n_cov != t.pair_set_count() as usize {
+                            return Err(format!("{}: coverage has {} glyphs, {} pair sets", w, n_cov, t.pair_set_count()));
+                        }
+                        if let Some(g) = cov.iter().next() {
+                            first_glyph_of_piece.push(g.to_u16());
+                        }
+                    }
+                    for (si_in, sub) in model.iter().enumerate() {
+                        for (q, g1) in sub.glyphs.iter().enumerate() {
+                            let gid = GlyphId16::new(*g1);
+                            let mut holder = None;
+                            let mut holders = 0usize;
+                            for (x, (_, _, cov)) in f1.iter().enumerate() {
+                                if let Some(idx) = cov.get(gid) {
+                                    holders += 1;
+                                    holder.get_or_insert((x, idx));
+                                }
+                            }
+                            if holders != 1 {
+                                return Err(format!(
+                                    "lookup {}: first glyph {} (entry {} of input subtable {}) is covered by {} of the {} output subtables (expected exactly 1): its pair set is {}",
+                                    li, g1, q, si_in, holders, f1.len(), if holders == 0 { "unreachable" } else { "ambiguous" }
+                                ));
+                            }
+                            let (x, idx) = holder.unwrap_or((0, 0));
+                            let (w, t, _) = &f1[x];
+                            let set = rd!(t.pair_sets().get(idx as usize), format!("{} pairset {}", w, idx));
+                            let mut n = 0usize;
+                            for (j, rec) in set.pair_value_records().iter().enumerate() {
+                                let rec = rd!(rec, format!("{} pair record", w));
+                                if j >= sub.k {
+                                    return Err(format!("{}: pair set of glyph {} has more than {} records", w, g1, sub.k));
+                                }
+                                let adv = rec.value_record1.x_advance().unwrap_or(0);
+                                let want = (sub.g2(q, j), pp1_adv(li, sub.vkeys[q], j));
+                                if (rec.second_glyph.get().to_u16(), adv) != want {
+                                    return Err(format!("{}: first glyph {} reaches a pair set whose record {} is (g2 {}, adv {}), expected (g2 {}, adv {})", w, g1, j, rec.second_glyph.get().to_u16(), adv, want.0, want.1));
+                                }
+                                n += 1;
+                            }
+                            if n != sub.k {
+                                return Err(format!("{}: pair set of glyph {} has {} records, expected {}", w, g1, n, sub.k));
+                            }
+                            back.rules += n as u64;
+                            back.glyphs_reached += 1;
+                        }
+                        // where did this input subtable get cut?
+                        let mut starts: Vec<usize> = first_glyph_of_piece.iter().filter_map(|g| sub.glyphs.binary_search(g).ok()).filter(|i| *i != 0).collect();
+                        starts.sort_unstable();
+                        if !starts.is_empty() {
+                            back.pp1_splits.push(((li, si_in), starts));
+                        }
+                    }
+                } else if let Some(m) = pp2 {
+                    if !f1.is_empty() {
+                        return Err(format!("lookup {}: unexpected PairPosFormat1 subtable", li));
+                    }
+                    let allowed: HashSet<u16> = m.g1s.iter().map(|x| x.0).collect();
+                    let mut parsed = vec![];
+                    for (w, t, cov) in &f2 {
+                        check_coverage_consistent(cov, &allowed, w, "first-glyph")?;
+                        let cd1 = rd!(t.class_def1(), format!("{} classdef1", w));
+                        let cd2 = rd!(t.class_def2(), format!("{} classdef2", w));
+                        if t.class2_count() != m.n2 {
+                            return Err(format!("{}: class2 count {} != {}", w, t.class2_count(), m.n2));
+                        }
+                        for (g2, c2) in &m.g2s {
+                            if cd2.get(GlyphId16::new(*g2)) != *c2 {
+                                return Err(format!("{}: classdef2 of glyph {} changed", w, g2));
+                            }
+                        }
+                        parsed.push(cd1);
+                    }
+                    for (g1, c1) in &m.g1s {
+                        let gid = GlyphId16::new(*g1);
+                        let holders: Vec<usize> = (0..f2.len()).filter(|x| f2[*x].2.get(gid).is_some()).collect();
+                        if holders.len() != 1 {
+                            return Err(format!("lookup {}: first glyph {} (class {}) is covered by {} of the {} output subtables (expected exactly 1)", li, g1, c1, holders.len(), f2.len()));
+                        }
+                        let (w, t, _) = &f2[holders[0]];
+                        let nc1 = parsed[holders[0]].get(gid);
+                        if nc1 >= t.class1_count() {
+                            return Err(format!("{}: class {} of glyph {} >= class1 count {}", w, nc1, g1, t.class1_count()));
+                        }
+                        let rec = rd!(t.class1_records().get(nc1 as usize), format!("{} class1 record {}", w, nc1));
+                        let c2recs = rec.class2_records();
+                        for c2 in 0..m.n2 {
+                            let r2 = rd!(c2recs.get(c2 as usize), format!("{} class2 record", w));
+                            let got = (r2.value_record1.x_advance().unwrap_or(0), r2.value_record2.x_advance().unwrap_or(0));
+                            if got != pp2_val(m.seed, *c1, c2) {
+                                return Err(format!("{}: value for glyph {} (class {}->{}) x class2 {} is {:?}, expected {:?}", w, g1, c1, nc1, c2, got, pp2_val(m.seed, *c1, c2)));
+                            }
+                            back.rules += 1;
+                        }
+                        back.glyphs_reached += 1;
+                    }
+                } else {
+                    return Err(format!("lookup {}: unexpected Pair lookup", li));
                 }
             }
             rgpos::PositionSubtables::MarkToBase(subs) => {
-                let Some((_, marks, bases)) = ex.mb.iter().find(|x| x.0 == li) else {
+                let Some(m) = ex.mb.iter().find(|x| x.li == li) else {
                     return Err(format!("lookup {}: unexpected MarkToBase", li));
                 };
-                let mark_by_gid: HashMap<u16, &(u16, u16, i16, i16)> = marks.iter().map(|m| (m.0, m)).collect();
-                let base_by_gid: HashMap<u16, &Vec<Option<(i16, i16)>>> = bases.iter().map(|b| (b.0, &b.1)).collect();
-                let mut marks_seen: HashSet<u16> = HashSet::new();
+                let mark_set: HashSet<u16> = m.marks.iter().map(|x| x.0).collect();
+                let base_set: HashSet<u16> = m.bases.iter().map(|x| x.0).collect();
+                let mut mark_holders: HashMap<u16, usize> = HashMap::new();
                 // (base gid, original class) pairs checked
                 let mut attach_seen: HashSet<(u16, u16)> = HashSet::new();
                 for si in 0..subs.len() {
@@ -312,80 +619,84 @@ fn verify_gpos(bytes: &[u8], ex: &Expect) -> Result<Back, String> {
                     let bcov = rd!(t.base_coverage(), format!("{} base coverage", w));
                     let marr = rd!(t.mark_array(), format!("{} mark array", w));
                     let barr = rd!(t.base_array(), format!("{} base array", w));
+                    let n_m = check_coverage_consistent(&mcov, &mark_set, &w, "mark")?;
+                    let n_b = check_coverage_consistent(&bcov, &base_set, &w, "base")?;
+                    if n_m != marr.mark_count() as usize {
+                        return Err(format!("{}: mark coverage has {} glyphs, mark array {}", w, n_m, marr.mark_count()));
+                    }
+                    if n_b != barr.base_count() as usize {
+                        return Err(format!("{}: base coverage has {} glyphs, base array {}", w, n_b, barr.base_count()));
+                    }
                     let mrecs = marr.mark_records();
                     let mut new_to_orig: HashMap<u16, u16> = HashMap::new();
-                    for (idx, g) in mcov.iter().enumerate() {
-                        let Some(m) = mark_by_gid.get(&g.to_u16()) else {
-                            return Err(format!("{}: mark glyph {} not in input", w, g.to_u16()));
-                        };
-                        let Some(rec) = mrecs.get(idx) else {
+                    for mk in &m.marks {
+                        let Some(idx) = mcov.get(GlyphId16::new(mk.0)) else { continue };
+                        *mark_holders.entry(mk.0).or_insert(0) += 1;
+                        let Some(rec) = mrecs.get(idx as usize) else {
                             return Err(format!("{}: mark record {} missing", w, idx));
                         };
                         let a = rd!(rec.mark_anchor(marr.offset_data()), format!("{} mark anchor {}", w, idx));
-                        if (a.x_coordinate(), a.y_coordinate()) != (m.2, m.3) {
-                            return Err(format!("{}: mark {} anchor {:?} expected {:?}", w, m.0, (a.x_coordinate(), a.y_coordinate()), (m.2, m.3)));
+                        if (a.x_coordinate(), a.y_coordinate()) != (mk.2, mk.3) {
+                            return Err(format!("{}: mark {} anchor {:?} expected {:?}", w, mk.0, (a.x_coordinate(), a.y_coordinate()), (mk.2, mk.3)));
                         }
                         let nc = rec.mark_class();
                         if nc >= t.mark_class_count() {
                             return Err(format!("{}: mark class {} >= count {}", w, nc, t.mark_class_count()));
                         }
-                        if *new_to_orig.entry(nc).or_insert(m.1) != m.1 {
+                        if *new_to_orig.entry(nc).or_insert(mk.1) != mk.1 {
                             return Err(format!("{}: marks of different input classes merged into class {}", w, nc));
                         }
-                        marks_seen.insert(m.0);
                         back.rules += 1;
                     }
                     let brecs = barr.base_records();
-                    for (idx, g) in bcov.iter().enumerate() {
-                        let Some(exp) = base_by_gid.get(&g.to_u16()) else {
-                            return Err(format!("{}: base glyph {} not in input", w, g.to_u16()));
-                        };
-                        let rec = rd!(brecs.get(idx), format!("{} base record {}", w, idx));
-                        let anchors = rec.base_anchors(barr.offset_data());
-                        for (nc, oc) in &new_to_orig {
-                            let got = match anchors.get(*nc as usize) {
-                                None => None,
-                                Some(a) => {
-                                    let a = rd!(a, format!("{} base {} anchor class {}", w, g.to_u16(), nc));
-                                    Some((a.x_coordinate(), a.y_coordinate()))
+                    for (gid, exp) in &m.bases {
+                        match bcov.get(GlyphId16::new(*gid)) {
+                            Some(idx) => {
+                                let rec = rd!(brecs.get(idx as usize), format!("{} base record {}", w, idx));
+                                let anchors = rec.base_anchors(barr.offset_data());
+                                for (nc, oc) in &new_to_orig {
+                                    let got = match anchors.get(*nc as usize) {
+                                        None => None,
+                                        Some(a) => {
+                                            let a = rd!(a, format!("{} base {} anchor class {}", w, gid, nc));
+                                            Some((a.x_coordinate(), a.y_coordinate()))
+                                        }
+                                    };
+                                    let want = exp.get(*oc as usize).copied().flatten();
+                                    if got != want {
+                                        return Err(format!("{}: base {} class {} (new {}) anchor {:?} expected {:?}", w, gid, oc, nc, got, want));
+                                    }
+                                    attach_seen.insert((*gid, *oc));
+                                    back.rules += 1;
                                 }
-                            };
-                            let want = exp.get(*oc as usize).copied().flatten();
-                            if got != want {
-                                return Err(format!("{}: base {} class {} (new {}) anchor {:?} expected {:?}", w, g.to_u16(), oc, nc, got, want));
                             }
-                            attach_seen.insert((g.to_u16(), *oc));
-                            back.rules += 1;
+                            None => {
+                                // allowed only if the base attaches to none of this subtable's classes
+                                if let Some((_, oc)) = new_to_orig.iter().find(|(_, oc)| exp.get(**oc as usize).copied().flatten().is_some()) {
+                                    return Err(format!("{}: base glyph {} is not covered but the input attaches class {} marks to it", w, gid, oc));
+                                }
+                            }
                         }
                     }
                 }
-                if let Some(m) = marks.iter().find(|m| !marks_seen.contains(&m.0)) {
-                    return Err(format!("lookup {}: mark glyph {} lost", li, m.0));
+                for mk in &m.marks {
+                    let h = mark_holders.get(&mk.0).copied().unwrap_or(0);
+                    if h != 1 {
+                        return Err(format!("lookup {}: mark glyph {} is covered by {} of the {} output subtables (expected exactly 1)", li, mk.0, h, subs.len()));
+                    }
+                    back.glyphs_reached += 1;
                 }
-                let classes: HashSet<u16> = marks.iter().map(|m| m.1).collect();
-                for (gid, anchors) in bases {
+                let classes: HashSet<u16> = m.marks.iter().map(|x| x.1).collect();
+                for (gid, anchors) in &m.bases {
                     for c in &classes {
                         if anchors[*c as usize].is_some() && !attach_seen.contains(&(*gid, *c)) {
                             return Err(format!("lookup {}: attachment base {} x class {} lost", li, gid, c));
                         }
                     }
+                    back.glyphs_reached += 1;
                 }
             }
             _ => return Err(format!("lookup {}: unexpected lookup kind in output", li)),
-        }
-    }
-    if list.lookup_count() as usize
-        != ex.pairs.keys().map(|k| k.0).chain(ex.pp2.iter().map(|x| x.0)).chain(ex.mb.iter().map(|x| x.0)).collect::<HashSet<_>>().len()
-    {
-        return Err(format!("lookup count {} differs from input", list.lookup_count()));
-    }
-    if found_pairs.len() != ex.pairs.len() {
-        let missing = ex.pairs.keys().find(|k| !found_pairs.contains_key(*k));
-        return Err(format!("pair rules: {} found, {} expected; e.g. missing {:?}", found_pairs.len(), ex.pairs.len(), missing));
-    }
-    for (k, v) in &ex.pairs {
-        if found_pairs.get(k) != Some(v) {
-            return Err(format!("pair rule {:?}: value {:?}, expected {}", k, found_pairs.get(k), v));
         }
     }
     Ok(back)
@@ -440,8 +751,9 @@ enum Built {
     Gsub(gsub::Gsub),
 }
 
-fn build(seed: u64, k: u64) -> (String, Built, Expect, Value) {
+fn build(seed: u64, k: u64, adapt: &HashMap<(usize, usize), Vec<usize>>) -> (String, Built, Expect, Value) {
     let mut r = Rng::derive(seed, "c05-gpos", k);
+    let mut gen = Gen { seed, k, slot: 0, adapt };
     let kind = KINDS[(k % KINDS.len() as u64) as usize];
     let mut ex = Expect::default();
     // total target size: 0.8x .. 4x of 64 KiB
@@ -453,19 +765,19 @@ fn build(seed: u64, k: u64) -> (String, Built, Expect, Value) {
         "pairpos1" => {
             n_lookups = r.range(1, 3) as usize;
             for li in 0..n_lookups {
-                lookups.push(big_pair_pos1(&mut r, li, target / n_lookups, &mut ex));
+                lookups.push(big_pair_pos1(&mut r, &mut gen, li, target / n_lookups, &mut ex));
             }
         }
         "pairpos2" => {
             n_lookups = r.range(1, 2) as usize;
             for li in 0..n_lookups {
-                lookups.push(big_pair_pos2(&mut r, li, target / n_lookups, &mut ex));
+                lookups.push(big_pair_pos2(&mut r, &mut gen, li, target / n_lookups, &mut ex));
             }
         }
         "markbase" => {
             n_lookups = r.range(1, 2) as usize;
             for li in 0..n_lookups {
-                lookups.push(big_mark_base(&mut r, li, target / n_lookups, &mut ex));
+                lookups.push(big_mark_base(&mut r, &mut gen, li, target / n_lookups, &mut ex));
             }
         }
         "mixed" => {
@@ -473,9 +785,9 @@ fn build(seed: u64, k: u64) -> (String, Built, Expect, Value) {
             for li in 0..n_lookups {
                 let t = target / n_lookups;
                 lookups.push(match r.below(4) {
-                    0 => big_pair_pos2(&mut r, li, t, &mut ex),
-                    1 => big_mark_base(&mut r, li, t, &mut ex),
-                    _ => big_pair_pos1(&mut r, li, t, &mut ex),
+                    0 => big_pair_pos2(&mut r, &mut gen, li, t, &mut ex),
+                    1 => big_mark_base(&mut r, &mut gen, li, t, &mut ex),
+                    _ => big_pair_pos1(&mut r, &mut gen, li, t, &mut ex),
                 });
             }
         }
@@ -507,24 +819,69 @@ fn build(seed: u64, k: u64) -> (String, Built, Expect, Value) {
             return (kind.to_string(), Built::Gsub(t), ex, recipe);
         }
     }
-    let recipe = json!({"kind": kind, "seed": seed, "k": k, "scale_pct": scale_pct, "lookups": n_lookups});
+    let mut adapt_v: Vec<(&(usize, usize), &Vec<usize>)> = adapt.iter().collect();
+    adapt_v.sort();
+    let recipe = json!({"kind": kind, "seed": seed, "k": k, "scale_pct": scale_pct, "lookups": n_lookups,
+        "coverages_shape_mode_format2_ranges": ex.coverages.iter().map(|c| json!([SHAPES[c.0], COV_MODES[c.1], c.2, c.3])).collect::<Vec<_>>(),
+        "range_boundaries_placed_around_split_starts": adapt_v.iter().map(|(k, v)| json!({"lookup": k.0, "subtable": k.1, "split_starts": v})).collect::<Vec<_>>()});
     let t = gpos::Gpos::new(Default::default(), Default::default(), layout::LookupList::new(lookups));
     (kind.to_string(), Built::Gpos(t), ex, recipe)
 }
 
-fn one(ctx: &mut Ctx, k: u64) {
+/// Where the split starts of a PairPos1 subtable fall relative to the range
+/// records of its (format 2) input coverage.
+fn classify_splits(ctx: &mut Ctx, ex: &Expect, splits: &[((usize, usize), Vec<usize>)]) -> bool {
+    let mut any_boundary = false;
+    for ((li, si), starts) in splits {
+        let Some(sub) = ex.pp1.iter().find(|x| x.0 == *li).and_then(|x| x.1.get(*si)) else { continue };
+        ctx.count("gpos:pp1:input_subtables_split", 1);
+        if sub.ranges.is_empty() {
+            ctx.count("gpos:pp1:split_starts:coverage_format1", starts.len() as u64);
+            continue;
+        }
+        ctx.count("gpos:pp1:input_subtables_split_with_range_coverage", 1);
+        ctx.distinct("gpos:pp1:distinct_(shape,mode)_of_split_range_coverages", (sub.plan.shape * 16 + sub.plan.mode) as u64);
+        for s in starts {
+            let Some((a, b)) = sub.ranges.iter().find(|(a, b)| *a <= *s && *s <= *b).copied() else { continue };
+            let class = if a == *s && b == *s {
+                "single_glyph_range_exactly_at_split_start"
+            } else if b == *s {
+                "range_ends_exactly_at_split_start"
+            } else if a == *s {
+                "range_starts_exactly_at_split_start"
+            } else if b == *s + 1 {
+                "range_ends_one_after_split_start"
+            } else {
+                "split_start_strictly_inside_range"
+            };
+            if b == *s {
+                any_boundary = true;
+            }
+            ctx.count(&format!("gpos:pp1:split_starts:{}", class), 1);
+        }
+    }
+    any_boundary
+}
+
+/// Compile and verify one recipe variant; returns the observed PairPos1 split starts.
+fn run_variant(ctx: &mut Ctx, k: u64, adapt: &HashMap<(usize, usize), Vec<usize>>) -> Vec<((usize, usize), Vec<usize>)> {
     let seed = ctx.seed;
-    let built = vf_core::guard(|| build(seed, k));
+    let variant = if adapt.is_empty() { "" } else { ":boundary-adapted" };
+    let built = vf_core::guard(|| build(seed, k, adapt));
     let (kind, table, ex, recipe) = match built {
         Ok(b) => b,
         Err(p) => {
             // builders are library code too, but not this property's subject
             ctx.inconclusive(format!("GPOS recipe k={} could not be built: {}:{} {}", k, p.file, p.line, p.msg));
-            return;
+            return vec![];
         }
     };
     ctx.eval();
-    ctx.count(&format!("gpos:{}:cases", kind), 1);
+    ctx.count(&format!("gpos:{}{}:cases", kind, variant), 1);
+    for c in &ex.coverages {
+        ctx.count(&format!("gpos:input_coverage:{}:{}", COV_MODES[c.1], if c.2 { "format2" } else { "format1" }), 1);
+        ctx.count(&format!("gpos:input_coverage_shape:{}", SHAPES[c.0]), 1);
+    }
     let _ = hooks::take_trace();
     let label = || format!("gpos {}", recipe);
     let res = ctx.run_case(&label, None, &|| match &table {
@@ -540,7 +897,8 @@ fn one(ctx: &mut Ctx, k: u64) {
             ctx.count(&format!("gpos:stage_reached:{}", st), 1);
         }
     }
-    let case_id = format!("{}:seed{}:k{}", kind, seed, k);
+    let case_id = format!("{}{}:seed{}:k{}", kind, variant, seed, k);
+    let mut splits_out = vec![];
     match res {
         Ok(Ok(bytes)) => {
             let v = vf_core::guard(|| match &table {
@@ -551,6 +909,7 @@ fn one(ctx: &mut Ctx, k: u64) {
                 Ok(Ok(back)) => {
                     ctx.count("gpos:outcome:success_all_rules_found", 1);
                     ctx.count("gpos:rules_checked", back.rules);
+                    ctx.count("gpos:input_glyphs_reached_through_exactly_one_output_subtable", back.glyphs_reached);
                     let split = back.subtables > ex.n_input_subtables;
                     let promoted = back.extension_lookups > 0;
                     if split {
@@ -564,15 +923,18 @@ fn one(ctx: &mut Ctx, k: u64) {
                     if bytes.len() > 65535 {
                         ctx.count("gpos:output_above_64k", 1);
                     }
+                    let boundary = classify_splits(ctx, &ex, &back.pp1_splits);
                     if split || promoted {
                         ctx.nontrivial(fnv64(recipe.to_string().as_bytes()));
                         ctx.count("nontrivial_cases", 1);
                         ctx.sample_by_kind(
-                            &format!("gpos-{}{}{}", kind, if split { "-split" } else { "" }, if promoted { "-promoted" } else { "" }),
+                            &format!("gpos-{}{}{}{}", kind, if split { "-split" } else { "" }, if promoted { "-promoted" } else { "" }, if boundary { "-range-ends-at-split" } else { "" }),
                             json!({"recipe": recipe, "trace": trace, "out_len": bytes.len(), "subtables_in": ex.n_input_subtables,
-                                   "subtables_out": back.subtables, "extension_lookups": back.extension_lookups}),
+                                   "subtables_out": back.subtables, "extension_lookups": back.extension_lookups,
+                                   "pairpos1_split_starts": back.pp1_splits.iter().map(|(k, v)| json!({"lookup": k.0, "subtable": k.1, "starts": v})).collect::<Vec<_>>()}),
                         );
                     }
+                    splits_out = back.pp1_splits;
                 }
                 Ok(Err(msg)) => {
                     ctx.count("gpos:outcome:success_but_misresolved", 1);
@@ -608,7 +970,7 @@ fn one(ctx: &mut Ctx, k: u64) {
         Err(p) => {
             if !p.in_repo() {
                 ctx.inconclusive(format!("harness panic {}:{} {}", p.file, p.line, p.msg));
-                return;
+                return vec![];
             }
             ctx.count("gpos:outcome:panic", 1);
             ctx.violation(
@@ -619,10 +981,22 @@ fn one(ctx: &mut Ctx, k: u64) {
             );
         }
     }
+    splits_out
+}
+
+fn one(ctx: &mut Ctx, k: u64) {
+    let none = HashMap::new();
+    let splits = run_variant(ctx, k, &none);
+    // boundary-adapted variant: the same pair sets, but the first-glyph coverage is a range-format table whose
+    // records end one before / exactly at / one after every split start just observed (or isolate it)
+    if !splits.is_empty() {
+        let adapt: HashMap<(usize, usize), Vec<usize>> = splits.into_iter().collect();
+        run_variant(ctx, k, &adapt);
+    }
 }
 
 pub fn run(ctx: &mut Ctx) {
-    let count: u64 = ctx.tier.pick(480, 6000);
+    let count: u64 = ctx.tier.pick(1600, 16000);
     for k in 0..count {
         if ctx.mine(k as usize) {
             one(ctx, k);
